@@ -203,6 +203,15 @@ func (r *recorder) hook(ev string, kv ...any) {
 		if !known {
 			return // a queue of an earlier run (late watchdog)
 		}
+		if _, inMap := lock.VerifKeyOf(r.curLock, m["q"]); !inMap && r.curLock != nil {
+			// a queue object that is no longer the key's queue (a lock that prunes empty queues has dropped it; a
+			// watchdog that fires late still holds it): a remove on it is no step of the key's queue. It must find
+			// nothing - checked when it returns.
+			delete(r.ttlGids, gid)
+			delete(r.cancGids, gid)
+			r.remCause[gid] = "ghost"
+			return
+		}
 		cause := "unlock"
 		pname := ""
 		if p != nil {
@@ -238,6 +247,13 @@ func (r *recorder) hook(ev string, kv ...any) {
 		found, _ := m["found"].(bool)
 		cause := r.remCause[gid]
 		delete(r.remCause, gid)
+		if cause == "ghost" {
+			if found {
+				// something was removed from a queue object that is not in the map: no spec step explains this line
+				r.w.Emit(map[string]any{"ev": "ghostrem", "cause": "", "p": "", "k": k, "id": 0, "found": 1, "ids": r.intern(strs(m["ids"]))})
+			}
+			return
+		}
 		pname := ""
 		if p != nil {
 			pname = p.name
